@@ -303,3 +303,171 @@ def run_ds(case, glyph_scripts):
                      "tags": base_tags + ["ds:gen:" + f for f in sorted(feats)], "nontrivial": nontriv})
     # the property-level observation first (it is the one reported and shrunk when several requests of a case fail)
     return [r for r in reqs if r["op"] == "ds"] + [r for r in reqs if r["op"] != "ds"]
+
+
+# ------------------------------------------------------------------------------------------------ cross-script kerning buckets
+
+X_LTR = {"latn": [("a", 0x61), ("b", 0x62)], "grek": [("alpha", 0x3B1), ("beta", 0x3B2)], "cyrl": [("becy", 0x431), ("vecy", 0x432)],
+         "armn": [("aybarm", 0x561), ("benarm", 0x562)], "geor": [("angeor", 0x10D0), ("bangeor", 0x10D1)],
+         "thai": [("kokaithai", 0xE01), ("khokhaithai", 0xE02)]}
+X_RTL = {"hebr": [("alefhebr", 0x5D0), ("bethebr", 0x5D1)], "arab": [("behar", 0x628), ("alefar", 0x627)],
+         "syrc": [("alaphsyr", 0x710), ("bethsyr", 0x712)], "thaa": [("haathaa", 0x780), ("shaviyanithaa", 0x781)],
+         "nko": [("anko", 0x7CA), ("eenko", 0x7CB)]}
+
+
+def _links(rng, scripts):
+    """cross-script links over `scripts`: a chain (path) through all of them, sometimes a star or two separate components,
+    in a RANDOM storage order (the order of first occurrence decides the order of the buckets)"""
+    n = len(scripts)
+    r = rng.random()
+    if r < 0.6:
+        links = [(scripts[i], scripts[i + 1]) for i in range(n - 1)]                # chain
+    elif r < 0.75:
+        links = [(scripts[0], scripts[i]) for i in range(1, n)]                      # star
+    elif r < 0.9 and n >= 4:
+        links = [(scripts[0], scripts[1]), (scripts[2], scripts[3])]                 # two components
+        if n >= 5:
+            links.append((scripts[3], scripts[4]))
+    else:
+        links = [tuple(rng.sample(scripts, 2)) for _ in range(n)]
+        links = list(dict.fromkeys(links))
+    rng.shuffle(links)
+    return links
+
+
+def gen_xfont(rng, mode):
+    pool = X_LTR if rng.random() < 0.75 else X_RTL
+    k = rng.choice([3, 4, 4, 4, 5, 5])
+    scripts = rng.sample(sorted(pool), min(k, len(pool)))
+    glyphs = []
+    for s in scripts:
+        for g, u in pool[s]:
+            glyphs.append({"name": g, "width": 500, "unicodes": [u], "anchors": [["top", 250, 500]]})
+    glyphs.append({"name": "acutecomb", "width": 0, "unicodes": [0x301], "anchors": [["_top", 0, 480]]})
+    kerning = []
+    for s1, s2 in _links(rng, scripts):
+        a, b = rng.choice(pool[s1])[0], rng.choice(pool[s2])[0]
+        if rng.random() < 0.5:
+            a, b = b, a
+        kerning.append([a, b, -rng.randrange(5, 60)])
+    # kerning inside a script for some scripts only (a script kerned ONLY across scripts has no bucket of its own)
+    extra = []
+    for s in scripts:
+        if rng.random() < 0.3:
+            extra.append([pool[s][0][0], pool[s][1][0], -rng.randrange(5, 60)])
+    for e in extra:
+        kerning.insert(rng.randrange(len(kerning) + 1), e)
+    seen, kk = set(), []
+    for l, r, v in kerning:
+        if (l, r) not in seen:
+            seen.add((l, r)); kk.append([l, r, v])
+    from fontTools import unicodedata as ud
+    tags = []
+    for s in scripts:
+        for t in ud.ot_tags_from_script(ud.script(chr(pool[s][0][1]))):
+            tags.append(t.strip())
+    r = rng.random()
+    if r < 0.7:
+        lskind, ls = "all", [[DFLT, "dflt"]] + [[t, "dflt"] for t in tags]
+    elif r < 0.85:
+        lskind, ls = "all+langs", [[DFLT, "dflt"]] + [[t, "dflt"] for t in tags] + [[t, "TRK"] for t in tags if rng.random() < 0.5]
+    else:
+        lskind, ls = "subset+DFLT", [[DFLT, "dflt"]] + [[t, "dflt"] for t in tags if rng.random() < 0.7]
+    fea = "".join("languagesystem %s %s;\n" % (s, l) for s, l in ls)
+    fd = {"glyphs": glyphs, "kerning": kk, "groups": {}, "features": fea}
+    return {"kind": "xfont", "fd": fd, "langsys": ls, "lskind": lskind, "ukinds": ["nouser"], "scripts": scripts,
+            "lib": rng.choice(["ufoLib2", "defcon"]), "fmt": rng.choice(["ttf", "ttf", "otf"])}
+
+
+def corpus_xfont():
+    """four LTR scripts chained Latn-Grek, Cyrl-Armn, Grek-Cyrl (the linking pair stored LAST)"""
+    glyphs = []
+    for s in ("latn", "grek", "cyrl", "armn"):
+        for g, u in X_LTR[s]:
+            glyphs.append({"name": g, "width": 500, "unicodes": [u], "anchors": [["top", 250, 500]]})
+    glyphs.append({"name": "acutecomb", "width": 0, "unicodes": [0x301], "anchors": [["_top", 0, 480]]})
+    ls = [[DFLT, "dflt"]] + [[t, "dflt"] for t in ("latn", "grek", "cyrl", "armn")]
+    out = []
+    for order in ([0, 1, 2], [0, 2, 1]):
+        k = [["a", "alpha", -11], ["vecy", "aybarm", -22], ["beta", "becy", -33]]
+        fd = {"glyphs": glyphs, "kerning": [k[i] for i in order], "groups": {},
+              "features": "".join("languagesystem %s %s;\n" % tuple(x) for x in ls)}
+        out.append({"kind": "xfont", "fd": fd, "langsys": ls, "lskind": "corpus", "ukinds": ["nouser"],
+                    "scripts": ["latn", "grek", "cyrl", "armn"], "lib": "ufoLib2", "fmt": "ttf"})
+    return out
+
+
+def run_xfont(case, run_font, glyph_scripts):
+    from fontTools import unicodedata as ud
+    reqs = run_font(case)
+    obs = next((r["obs"] for r in reqs if r["op"] in ("e2e", "build")), None)
+    if obs is None or obs.get("err") is not None:
+        return reqs
+    fd = case["fd"]
+    gs = glyph_scripts(fd)
+    own = [[g["name"], [] if not g["unicodes"] else (["*"] if gs[g["name"]] is None else sorted(gs[g["name"]]))] for g in fd["glyphs"]]
+    pairs = [[a, b] for l, r, _ in fd["kerning"] for a in fd["groups"].get(l, [l]) for b in fd["groups"].get(r, [r])]
+    dirs = {}
+    for g in fd["glyphs"]:
+        for u in g["unicodes"]:
+            for sc in ud.script_extension(chr(u)):
+                for t in ud.ot_tags_from_script(sc):
+                    dirs[t.strip()] = ud.script_horizontal_direction(sc, "LTR")
+    feats = {k[2] for k in obs["reach"]}
+    nbuckets = len({tuple(sorted(t for x in (l, r) for t in (gs.get(x) or []))) for l, r, _ in fd["kerning"]})
+    x = {"op": "xkern", "in": {"own": own, "pairs": pairs, "dirs": sorted([k, v] for k, v in dirs.items())}, "obs": obs,
+         "tags": ["xkern", "xkern:scripts:%d" % len(case["scripts"]), "xkern:ls:" + case["lskind"],
+                  "xkern:" + ("RTL" if "RTL" in dirs.values() else "LTR")] + ["xkern:gen:" + f for f in sorted(feats)],
+         "nontrivial": bool(feats & {"kern", "dist"}) and bool(feats & set(GEN_TAGS)) and nbuckets >= 3}
+    return [x] + reqs
+
+
+SYN = ["Latn", "Grek", "Cyrl", "Armn", "Geor", "Copt", "Hebr", "Arab"]
+
+
+def gen_merge(rng, mode):
+    """a kerningPerScript dict: keys = sorted script tuples (1-3 scripts), in random order; values = abstract pair ids"""
+    k = rng.choice([4, 5, 6, 7, 8])
+    scripts = rng.sample(SYN, k)
+    keys = []
+    r = rng.random()
+    if r < 0.5:
+        keys = [(scripts[i], scripts[i + 1]) for i in range(k - 1)]                  # chain of two-script buckets
+        keys = [x for x in keys if rng.random() < 0.85]
+    elif r < 0.8:
+        for _ in range(rng.randrange(2, 7)):
+            keys.append(tuple(rng.sample(scripts, rng.choice([1, 2, 2, 3]))))
+    else:
+        keys = [(scripts[0], scripts[i]) for i in range(1, k)]
+    for s in scripts:
+        if rng.random() < 0.3:
+            keys.append((s,))
+    keys = list(dict.fromkeys(tuple(sorted(x)) for x in keys)) or [(scripts[0],)]
+    rng.shuffle(keys)
+    if rng.random() < (0.03 if mode == "search" else 0.01):
+        keys.insert(rng.randrange(len(keys) + 1), ())                                # an empty bucket key: AssertionError
+    out, nid = [], 0
+    for key in keys:
+        n = rng.choice([1, 1, 2, 3])
+        out.append([list(key), list(range(nid, nid + n))]); nid += n
+    return out
+
+
+def run_merge(item):
+    from ufo2ft.featureWriters import kernFeatureWriter as kfw
+    kps = {tuple(k): list(v) for k, v in item}
+    try:
+        res = kfw.mergeScripts(kps)
+        obs = {"err": None, "buckets": [[list(k), list(v)] for k, v in res.items()]}
+    except Exception as e:
+        obs = {"err": err_kind(e)}
+    nb = len(obs.get("buckets", []))
+    two = sum(1 for k, _ in item if len(k) >= 2)
+    return {"op": "merge", "in": item, "obs": obs,
+            "tags": ["merge", "merge:err:" + str(obs["err"]), "merge:in:%d" % min(len(item), 6), "merge:out:%d" % min(nb, 4),
+                     "merge:merged" if nb < len(item) else "merge:nothing-to-merge"],
+            "nontrivial": two >= 3 and nb < len(item)}
+
+
+def canon_buckets(b):
+    return [[sorted(k), list(v)] for k, v in b]
